@@ -788,10 +788,36 @@ fn vals_tok(vs: &[u64]) -> String {
     }
 }
 
+/// per `State::flush` of the flusher (the last thread), in order: did it call `clear_with` on the histogram's bucket (its
+/// `is_empty` answered false)? Read off the trace: a `bkt.clear.load_tail` grant of the flusher after the flush's
+/// `bkt.empty.load_tail` grant.
+fn flush_called_clear(trace: &[(usize, &'static str)]) -> Vec<bool> {
+    let f = trace.iter().map(|x| x.0).max().unwrap_or(0);
+    let mut v: Vec<bool> = vec![];
+    for (t, id) in trace {
+        if *t == f {
+            match *id {
+                "bkt.empty.load_tail" => v.push(false),
+                "bkt.clear.load_tail" => {
+                    if let Some(l) = v.last_mut() {
+                        *l = true;
+                    }
+                }
+                _ => {}
+            }
+        }
+    }
+    v
+}
+
 fn answer_d(o: &OutcomeD) -> String {
     let labels: Vec<&str> = o.run.trace.iter().map(|(_, id)| *id).collect();
-    let outs = list(o.flushes.iter().map(|f| match f {
+    // nothing sent for the key: `skip` = the flush skipped the histogram as empty (no `clear_with` call); `[]` = it called
+    // `clear_with`, which handed nothing to the writer (its detach compare-exchange failed: the model's `cleared []`)
+    let called = flush_called_clear(&o.run.trace);
+    let outs = list(o.flushes.iter().enumerate().map(|(k, f)| match f {
         Some(vs) => vals_tok(vs),
+        None if called.get(k) == Some(&true) => "[]".into(),
         None => "skip".into(),
     }));
     let visible = match o.final_flushes.first() {
@@ -801,11 +827,11 @@ fn answer_d(o: &OutcomeD) -> String {
     format!("{} | {} | visible={} | consistent=true", labels.join("."), outs, visible)
 }
 
-/// values whose push has the K-C05-K1 trace signature: a detach (`bkt.clear.load_tail` grant of the flusher = tail
-/// load + CAS) lies between the push's last tail load and its slot claim
+/// values whose push has the K-C05-K1 trace signature: a detach (`bkt.clear.cas` grant of the flusher = the detaching
+/// compare-exchange, the step after its tail load) lies between the push's last tail load and its slot claim
 fn k1_values(recs: &[Vec<u64>], trace: &[(usize, &'static str)]) -> Vec<u64> {
     let f = recs.len();
-    let detaches: Vec<usize> = trace.iter().enumerate().filter(|(_, (t, id))| *t == f && *id == "bkt.clear.load_tail").map(|x| x.0).collect();
+    let detaches: Vec<usize> = trace.iter().enumerate().filter(|(_, (t, id))| *t == f && *id == "bkt.clear.cas").map(|x| x.0).collect();
     let mut out = vec![];
     for t in 0..recs.len() {
         let mut k = 0usize;
@@ -912,6 +938,15 @@ fn one_d(out: &mut Out, recs: &[Vec<u64>], nflush: usize, sch: &[usize], as_dist
     }
     if tr.iter().any(|(_, id)| *id == "bkt.push.cas_new") {
         out.count("d.block.hand-over");
+    }
+    // a flush whose `clear_with` failed to detach (a record() handed the tail over between the flush's tail load and its
+    // compare-exchange): that flush sends nothing for the key, the values wait for the next flush — the exactly-once
+    // oracle below holds as it stands (Lean: C05.failed_detach_delivers_nothing_and_loses_nothing)
+    for (gi, (t, id)) in tr.iter().enumerate() {
+        if *t == f && *id == "bkt.clear.cas" && tr[gi + 1..].iter().find(|(t2, _)| *t2 == f).map(|x| x.1) != Some("bkt.clear.quiesced") {
+            out.count("d.flush.failed-detach(clear_with drained nothing; values stay for the next flush)");
+            out.nontrivial();
+        }
     }
     oracle_d(out, recs, &o);
 }
@@ -1028,6 +1063,18 @@ pub fn run(cfg: &Cfg, out: &mut Out) {
             sch.extend(std::iter::repeat(1).take(60));
             one_d(out, &recs, 2, &sch, j % 2 == 0, 8192);
         }
+    }
+    // failed detach through the exporter: 64 recorded values fill the block; the flush (is_empty: false) loads the tail
+    // and is parked at its detach CAS; the 65th record() hands the tail over; the flush's CAS fails and it sends nothing;
+    // the second flush sends all 65
+    out.case("corpus D failed detach");
+    {
+        let recs: Vec<Vec<u64>> = vec![(1..=64u64).collect(), vec![65]];
+        let mut sch: Vec<usize> = vec![0; 3 * 64 + 2];
+        sch.extend(std::iter::repeat(2).take(4)); // start, is_empty (tail load, len), clear's tail load → parked at bkt.clear.cas
+        sch.extend(std::iter::repeat(1).take(7));
+        sch.extend(std::iter::repeat(2).take(60));
+        one_d(out, &recs, 2, &sch, false, 8192);
     }
     // K-C05-K1 through the exporter: recorder loads the tail, the flush detaches and reads, then the recorder claims
     out.case("corpus D K1");
